@@ -544,15 +544,36 @@ func (x *Exec) oblige(st *State, kind, name string, tags []string, pos token.Pos
 	if st.dead || st.pc == "false" {
 		return nil
 	}
-	o := &Obligation{Name: name, Kind: kind, Tags: tags, prefix: len(x.smt.asserts), pc: st.pc, goal: goal, smt: x.smt, exec: x, frame: x.topFrame}
-	if x.topFn != nil {
-		o.Func = x.topFn.String()
+	// a clause that is a conjunction with quantified conjuncts is proved conjunct by conjunct
+	// (smaller queries; the parts are named name, name~p1, name~p2, ... and count as one clause)
+	goals := []string{goal}
+	switch kind {
+	case "ensures", "inv.entry", "inv.preserve", "site", "call.requires":
+		if strings.Contains(goal, "(forall ") && len(goal) < 300000 {
+			if parts := splitGoal(goal); len(parts) > 1 {
+				goals = parts
+			}
+		}
 	}
-	if pos.IsValid() && x.prog != nil {
-		o.Pos = x.prog.fset.Position(pos)
+	var first *Obligation
+	for i, g := range goals {
+		n := name
+		if i > 0 {
+			n = fmt.Sprintf("%s~p%d", name, i)
+		}
+		o := &Obligation{Name: n, Kind: kind, Tags: tags, prefix: len(x.smt.asserts), pc: st.pc, goal: g, smt: x.smt, exec: x, frame: x.topFrame}
+		if x.topFn != nil {
+			o.Func = x.topFn.String()
+		}
+		if pos.IsValid() && x.prog != nil {
+			o.Pos = x.prog.fset.Position(pos)
+		}
+		x.obls = append(x.obls, o)
+		if first == nil {
+			first = o
+		}
 	}
-	x.obls = append(x.obls, o)
-	return o
+	return first
 }
 
 func (x *Exec) safetyOblige(fr *Frame, st *State, kind string, instr ssa.Instruction, text string, goal string) {
